@@ -51,8 +51,9 @@ def field_inits(record_node):
 
 
 class OptMachine(Machine):
-    def __init__(self, decls, records, script, strat_cls, max_iter, **kw):
+    def __init__(self, decls, records, script, strat_cls, max_iter, scale=Fraction(1), **kw):
         super().__init__(decls=decls, type_factory=self.types, **kw)
+        self.scale = Fraction(scale)  # unit of the residual: every quantity that carries the residual's dimension is multiplied by it
         self.ieee_division = True
         self.statics = {}
         self.records = records
@@ -62,7 +63,7 @@ class OptMachine(Machine):
         self.global_env = mach.Env()
         self.cost = {}                # point term -> |f| (Fraction)
         self.x0 = Term("X0")
-        self.cost[self.x0.name] = Fraction(1) if not (script.steps and script.steps[0][2]) else Fraction(0)
+        self.cost[self.x0.name] = self.scale if not (script.steps and script.steps[0][2]) else Fraction(0)
         f = self.funcs
         f["apply"] = PyFunc(self.std_apply, lazy=True)
         f["dr"] = PyFunc(self.dr, lazy=True)
@@ -196,7 +197,7 @@ class OptMachine(Machine):
         q = self.script.steps[self.k][0]
         base = self.cost.get(pt.name)
         if base is not None and q is not None:
-            self.cost[new.name] = base * q if base != 0 else q      # zero residual: the trial cost itself is scripted
+            self.cost[new.name] = base * q if base != 0 else q * self.scale      # zero residual: the trial cost itself is scripted
         return Tup([Cell(new)])
 
     def fpow(self, M, args, env, name):
@@ -218,11 +219,11 @@ class OptMachine(Machine):
         if m and m.group(1) in self.cost:
             return self.cost[m.group(1)]
         if v.name == "(f(%s) + (J(%s) * dx%d))" % (cur, cur, self.k) or v.name == "((J(%s) * dx%d) + f(%s))" % (cur, self.k, cur):
-            return base * p if base != 0 else p
+            return base * p if base != 0 else p * self.scale
         if re.match(r"^colwise_norm\(J\(.*\)\)\.unaryExpr\(.*\)\.cwiseProduct\(dx%d\)$" % self.k, v.name) or re.match(r"^dx%d\.cwiseProduct\(" % self.k, v.name):
-            return stepn
+            return stepn * self.scale          # D = column norms of J carries the residual's unit, dx does not
         if v.name.startswith("colwise_norm("):
-            return Fraction(1)
+            return self.scale
         raise Unab("the scenario has no value for the norm of %s" % v.name)
 
 
@@ -398,6 +399,63 @@ def check_trace(rep, decls, records, tier):
                         rep.violation(Finding("L.trace", "minimize", inst, "%s: %s" % (inst, bad), *A.loc(fn.node)))
 
 
+def outcome(M, res):
+    """what a caller can observe of a run, modulo the unit of the residual: status, iteration count, callback sequence, strategy verdict inputs"""
+    res = M.rv(res)
+    status, iters = (res.items[0], simp(res.items[1])) if isinstance(res, Vec) and len(res.items) >= 2 else (show_val(res), None)
+    return (status, iters, tuple(e[1] for e in M.events if e[0] == "cb"), tuple((e[1], e[2] if not isinstance(e[2], float) else repr(e[2])) for e in M.events if e[0] == "strategy"))
+
+
+def check_scale(rep, decls, records, tier):
+    """L.scale: multiplying the residual function by a positive constant does not move its minimiser, so no decision of minimize may depend on it: the same
+    scenario (same cost ratios, same step) is run with every residual-dimension quantity of the oracle scaled by s, and the observable outcome must not change"""
+    rep.rule("L.scale", "minimize, abstractly executed with the residual's unit scaled by 1e-8 and 1e8: status, iteration count, callback sequence and the gain ratios handed to the "
+             "strategy are those of the unscaled scenario", minimum=20)
+    mains = [d for d in decls.get("minimize", []) if len(A.params(d.node)) == 4]
+    if len(mains) != 1:
+        rep.broke("L.scale: expected one minimize(f, x, cb, opts) body, found %d" % len(mains))
+        return
+    fn = mains[0]
+    names = strategies(records)
+    depth = 2 if tier == "quick" else 3
+    seen_kinds = set()
+    for cls in names[:1] if tier == "quick" else names:
+        for n in range(1, depth + 1):
+            for combo in itertools.product(range(len(ALPHABET)), repeat=n):
+                if any(ALPHABET[c][2] for c in combo[1:]):
+                    continue
+                steps = [ALPHABET[c] for c in combo]
+                outs = {}
+                try:
+                    for sc in (Fraction(1), Fraction(1, 10 ** 8), Fraction(10 ** 8)):
+                        M = OptMachine(decls, records, Script(steps), cls, len(combo), scale=sc)
+                        xcell = Cell(Tup([Cell(M.x0)]))
+                        res = M.run_function(fn, [Cell(Recorder("f")), xcell, Cell(Recorder("cb")), mach.ItemRef([M.opts], 0)], full="minimize<D>")
+                        outs[sc] = outcome(M, res)
+                except (Unab, AbstractViolation):
+                    continue          # reported by L.trace
+                base = outs[Fraction(1)]
+                inst = "%s script=%s" % (cls, "".join(str(c) for c in combo))
+                diff = [(sc, o) for sc, o in outs.items() if o != base]
+                if not diff:
+                    rep.instance("L.scale", "minimize", inst, ok=True, sample={})
+                    continue
+                sc, o = diff[0]
+                which = "status" if o[0] != base[0] else ("iteration count" if o[1] != base[1] else ("callback sequence" if o[2] != base[2] else "gain ratio"))
+                kind = "%s: %s -> %s" % (which, base[0] if which == "status" else base[1], o[0] if which == "status" else o[1])
+                # one instance name per kind of dependence (the scripts that exhibit it are many)
+                crit = "/".join(sorted({str(x) for x in (base[0], o[0]) if x != "MaxIters"})) or "loop"
+                key = "the %s decision depends on the residual's unit" % crit
+                rep.instance("L.scale", "minimize", key if key not in seen_kinds else inst, ok=False, sample={"script": inst, "scale": str(sc)})
+                if key in seen_kinds:
+                    continue
+                seen_kinds.add(key)
+                rep.violation(Finding("L.scale", "minimize", key,
+                                      "scenario %s: with the residual multiplied by %s (same cost ratios, same step dx) minimize returns status %s after %s iteration(s) instead of %s after %s -- "
+                                      "a termination test compares a quantity that carries the residual's unit (e.g. |D dx| with D the column norms of J) with a dimensionless tolerance, so convergence "
+                                      "is declared for O(1) steps when the residual is expressed in small units" % (inst, float(sc), o[0], o[1], base[0], base[1]), *A.loc(fn.node)))
+
+
 def judge(M, res, xcell, steps, max_iter):
     ev = M.events
     res = M.rv(res)
@@ -487,3 +545,4 @@ def check(rep, tier):
     decls, records = collect(d)
     check_strategies(rep, decls, records)
     check_trace(rep, decls, records, tier)
+    check_scale(rep, decls, records, tier)
